@@ -25,3 +25,8 @@ func NewVerifServer(client *nl.Client, mux *nl.Mux) *Server {
 
 // VerifClosable: false if no netlink socket could be opened (then Close() must not be called).
 func (s *Server) VerifClosable() bool { return s.conn != nil }
+
+// VerifDecodBuffer calls the unexported decodbuffer of this tree.
+func VerifDecodBuffer(b []byte) (uint64, uint16, uint16, []byte, error) {
+	return decodbuffer(b)
+}
